@@ -6,7 +6,17 @@ props = [json.loads(l)["id"] for l in open(os.path.join(ROOT, "properties.jsonl"
 
 TRUST = "Trusted base: the harness's own ISA table / reference models in /verif/mc/src (a few hundred lines each), rustc, and the enumeration being complete for the stated alphabets and bounds only."
 
+ISA_TEXT = "Transition-conformance of a reference eBPF machine (mc/src/refmodel.rs, values carry definedness so the exclusion clauses are applied mechanically). Layer 1: every supported opcode x every (dst,src) register pair x 30 immediates x 12 offsets x 31^2 boundary operand values, one transition per case with the whole register frame (r0-r9), branch marker and store area compared. "
 CHECKS = {
+ "C01": dict(engine="isa", category="model_checking", technique="exhaustive enumeration of (program, input) transitions of a reference eBPF machine over boundary alphabets, every one replayed on the interpreter and compared on the full observable state",
+   text=ISA_TEXT + "Every model transition is executed on the real interpreter (instruction budget hook) and compared: returned value, Ok/Err class, packet and metadata bytes.",
+   design_ref="DESIGN.md section 4 C01"),
+ "C03": dict(engine="isa", category="model_checking", technique="same enumeration as C01; each program is JIT-compiled and run in a forked child; oracle = the interpreter wherever the reference machine says the result is defined",
+   text=ISA_TEXT + "Each program is JIT-compiled once per group and executed for all inputs in a forked child process; result and defined bytes must equal the interpreter's; guard pages and canaries catch stray accesses; a crash is a violation.",
+   design_ref="DESIGN.md section 4 C03"),
+ "C04": dict(engine="isa", category="model_checking", technique="same enumeration as C01; each program is compiled with Cranelift and run in a forked child; oracle = the interpreter wherever the reference machine says the result is defined",
+   text=ISA_TEXT + "Each program is compiled with Cranelift once per group and executed for all inputs in a forked child; result and defined bytes must equal the interpreter's.",
+   design_ref="DESIGN.md section 4 C04"),
  "C13": dict(engine="text", category="exploration", technique="exhaustive enumeration of mnemonics x operand shapes x boundary value/spelling alphabets against an independent encoder",
    text="Every mnemonic of the syntax x every operand shape (<=3 operands, plus 4) x boundary registers/offsets/immediates x number spellings and whitespace variants, plus every ordered pair of mnemonics and reduced triples, is assembled and compared byte-for-byte (or Err-for-Err) with an independent encoder written from the property text. Complete for the stated alphabets; values between boundaries are not covered.",
    design_ref="DESIGN.md section 4 C13"),
@@ -25,6 +35,7 @@ CHECKS = {
 }
 
 ENGINES = {
+ "isa": ("mc/src/isaeng.rs", "kind A: transition-conformance of a reference machine (mc/src/refmodel.rs): bounded exhaustive enumeration of (pre-state x instruction) transitions, each replayed on interpreter / JIT / Cranelift"),
  "text": ("mc/src/text.rs", "kind D: exhaustive input-space enumeration of pure functions (assembler, disassembler, encoders, builder) against independent models in mc/src/asmref.rs and mc/src/isa.rs"),
 }
 
